@@ -31,6 +31,8 @@ def run(ck):
     for name in models:
         fns = info.get(name, {}).get("functions", {})
         order = info.get(name, {}).get("params")
+        if order is None:          # the translator could not render this model (already recorded as a broken tie): the oracle below still runs
+            continue
         for _ in range(max(6, nvec // 6)):
             par = sample_params(name, rng)
             if name == "Quadratic" and rng.random() < 0.3:
@@ -128,7 +130,8 @@ def run(ck):
             # scalar / 0-d / 1-d agree
             s0 = float(m.loading(np.float64(ps[1])))
             z0 = float(np.asarray(m.loading(np.array(ps[1]))))
-            if max(relerr(s0, nn[1]), relerr(z0, nn[1])) > 1e-14:
+            # (numpy's scalar and array exp() may differ in the last bit; far down the exponential tail that is 1-2e-14 relative)
+            if max(relerr(s0, nn[1]), relerr(z0, nn[1])) > 1e-13:
                 ck.fail_case({**sig0, "clause": "scalar-vs-array"}, {"params": par, "p": ps[1], "scalar": s0, "zero_d": z0, "array": float(nn[1])})
             # zero point
             if name not in REL_ONLY:
@@ -229,10 +232,13 @@ def run(ck):
             got, exp, okk = repr(e), None, False
         if not okk:
             ck.fail_case(sig, {"params": par, "bare": bare, "through_isotherm": got, "expected": exp})
-        if rq_l[1] is not None and name != "DSLangmuir":
-            lf = float(c03.expected_loading(w.props, lab, rq_l, rq_m, bare))
+        if name != "DSLangmuir" and isinstance(got, float):
+            # (fraction / percent requests: the loading the isotherm itself reports in that representation, so that this is the
+            #  round trip pressure_at(loading_at(p, **u), **u) = p and does not depend on finding S5 of C03)
+            lf = float(c03.expected_loading(w.props, lab, rq_l, rq_m, bare)) if rq_l[1] is not None else got
             try:
-                back = float(miso.pressure_at(lf, loading_basis=rq_l[0], loading_unit=rq_l[1], material_basis=rq_m[0], material_unit=rq_m[1],
+                # (for a fraction / percent input the library insists on *a* loading unit although none applies: any valid one)
+                back = float(miso.pressure_at(lf, loading_basis=rq_l[0], loading_unit=rq_l[1] if rq_l[1] is not None else "g", material_basis=rq_m[0], material_unit=rq_m[1],
                                               pressure_mode=rq_p[0], pressure_unit=rq_p[1]))
                 # the wrapper must return the bare model's pressure at that loading (not the round trip through loading(),
                 # which is ill-conditioned near saturation), converted to the requested representation
